@@ -72,8 +72,13 @@ func genConfig(t *rapid.T, universe []kit.KeySpec, label string) GConfig {
 		for i := 0; i < nk; i++ {
 			k := universe[rapid.IntRange(0, len(universe)-1).Draw(t, label+"key")]
 			// ids inside a service are what the operator wrote: mostly the universe id, sometimes a per-service alias
-			if rapid.IntRange(0, 3).Draw(t, label+"alias") == 0 {
+			switch rapid.IntRange(0, 5).Draw(t, label+"alias") {
+			case 0:
 				k.ID = fmt.Sprintf("%s-s%d-%d", k.ID, s, i)
+			case 1:
+				// an id that goes with the secret, whatever the cipher: across reloads the same id and secret
+				// reappear under another cipher (an operator changing a user's cipher)
+				k.ID = "user-of-" + k.Secret
 			}
 			svc.Keys = append(svc.Keys, k)
 		}
@@ -83,8 +88,11 @@ func genConfig(t *rapid.T, universe []kit.KeySpec, label string) GConfig {
 		nk := rapid.IntRange(1, 4).Draw(t, label+"nlegacykeys")
 		for i := 0; i < nk; i++ {
 			k := universe[rapid.IntRange(0, len(universe)-1).Draw(t, label+"lkey")]
-			if rapid.IntRange(0, 3).Draw(t, label+"lalias") == 0 {
+			switch rapid.IntRange(0, 5).Draw(t, label+"lalias") {
+			case 0:
 				k.ID = fmt.Sprintf("%s-p%d-%d", k.ID, p, i)
+			case 1:
+				k.ID = "user-of-" + k.Secret
 			}
 			c.Legacy = append(c.Legacy, GLegacy{KeySpec: k, Slot: legacySlots[p]})
 		}
